@@ -236,7 +236,18 @@ def main():
                     wbad.append('Select(a, b, %d) does not return %s' % (cond, 'a' if cond == 1 else 'b') if pr[0] == 'cex' else 'Select: solver unknown')
         eng.explore(run_wr)
         ck.absorb(eng)
-        record('%s.wrappers' % fname, True if not wbad else 'cex', 'Add/Sub/Mul/Square/Opp/One are one call of the generated leaf on (&e.x, &t1.x, &t2.x) and return the receiver; Set copies the limbs; Select(a,b,1)=a, Select(a,b,0)=b for all limbs' if not wbad else '; '.join(sorted(set(wbad))), (fname, 'wrappers'))
+        # the constant behind One(): the Montgomery form of 1, i.e. 2^256 mod m (real SetOne, concrete run)
+        eng1 = new_engine(prog, timeout_ms=60000)
+
+        def run_one(e, pre=pre, T=T, M=M):
+            o = e.new_obj([[0, 0, 0, 0]], FIAT + '.' + T)
+            out = e.call_outcome(FIAT + '.%sSetOne' % pre, [Ptr(o, (0,))])
+            limbs = [force(x) for x in e.heap[o][0][0]]
+            if out.kind != 'return' or not all(isinstance(x, int) for x in limbs) or sum(x << (64 * i) for i, x in enumerate(limbs)) != (1 << 256) % M:
+                wbad.append('SetOne does not store 2^256 mod m')
+        eng1.explore(run_one)
+        ck.absorb(eng1)
+        record('%s.wrappers' % fname, True if not wbad else 'cex', 'Add/Sub/Mul/Square/Opp/One are one call of the generated leaf on (&e.x, &t1.x, &t2.x) and return the receiver; Set copies the limbs; Select(a,b,1)=a, Select(a,b,0)=b for all limbs; SetOne stores 2^256 mod m' if not wbad else '; '.join(sorted(set(wbad))), (fname, 'wrappers'))
         # ToBigInt: the integer whose 32-byte big-endian encoding Bytes() returns (Bytes() = arbitrary canonical encoding)
         from sm2lib import int_input
         engb = new_engine(prog, timeout_ms=60000)
